@@ -845,6 +845,15 @@ func (in *inliner) expandBlock(tg *target, ctx *fctx, pos token.Pos) (pre []ast.
 		}
 		te, good := in.typeExpr(v.Type(), ctx, pos)
 		if !good {
+			// the type cannot be written at the call site (its name is shadowed there, as in
+			// `allocatorGroup.reset()` with a local called like the type): `name := arg` needs no
+			// type expression and means the same when the argument already has exactly that type
+			if arg != nil {
+				if at := in.typeOf(info, arg); at != nil && types.Identical(at, v.Type()) {
+					head = append(head, &ast.AssignStmt{Lhs: []ast.Expr{ident(name)}, Tok: token.DEFINE, Rhs: []ast.Expr{arg}}, blankUse(name))
+					return true
+				}
+			}
 			return false
 		}
 		head = append(head, varDecl(name, te, arg), blankUse(name)) // arg == nil: zero value (empty variadic)
